@@ -16,10 +16,10 @@ CLAIMS = {
  "C06": dict(text="Symbolic model checking (sequential part): every path of histories of committed / rolled-back / read-only transactions over one and two blocks with symbolic values; every emitted commit is replayed on a replica (in lock step, and as a lagging backlog through commit.Channel) and the replica's full dump must equal the model and the primary; offset reuse with stale data in the witness column included.",
              note="Bounds: T<=2|3 transactions, M<=2 ops, 2-4 pre-existing rows; interleavings of concurrent writers are covered only as far as the concurrent harnesses of C09/C15 go (see their notes); serialized-log transport is covered by C05 (codec) + C13.",
              ref="DESIGN.md §4 C06"),
- "C11": dict(text="Symbolic model checking. Allocator step: next()/free() from an ARBITRARY fill list (W fully symbolic 64-bit words after a prefix of full words, count = population): the offset returned was free, exactly that bit is set, Count follows, two reservations never collide, free restores the list. Histories: insert/delete/insert with offset reuse in a dense prefix of block 0 and in block 1 (block 0 full), a witness column holding a value in every pre-existing row, so that any data left behind by a previous occupant is visible. Failed inserts: an insert whose callback fails inside a transaction that also commits (or rolls back) other inserts - Count, liveness and the next reservation are checked.",
+ "C11": dict(text="Symbolic model checking. Allocator step: next()/free() from an ARBITRARY fill list (W fully symbolic 64-bit words after a prefix of full words, count = population): the offset returned was free, exactly that bit is set, Count follows, two reservations never collide, free restores the list. Histories: insert/delete/insert with offset reuse in a dense prefix of block 0 and in block 1 (block 0 full), a witness column holding a value in every pre-existing row, so that any data left behind by a previous occupant is visible. Failed inserts: an insert whose callback fails inside a transaction that also commits (or rolls back) other inserts - Count, liveness and the next reservation are checked. Offset reuse by a row that does not store an indexed column: the new occupant does not inherit the previous occupant's index membership (instance shared with C03).",
              note="Bounds: W=1 (quick) / W=2 (thorough) symbolic words; histories T=3,M<=2. Concurrent inserts are covered by the C18/C02 thread harnesses only. Known-finding regions of C02 (in-flight inserts, rollback) are not re-asserted here.",
              ref="DESIGN.md §4 C11"),
- "C12": dict(text="Symbolic model checking: every path of histories of InsertKey/UpsertKey/QueryKey/DeleteKey/SetKey over an alphabet of 2-3 keys (repeats forced) against a map model evaluated on committed state: every return value, every lookup (Row.Key and the value behind the key, symbolic), one live row per key, Count; several key operations per transaction, rollbacks, keyed rows in block 1 (block 0 full), and histories that start from freed offsets still holding stale keys (four concrete pre-histories, symbolic choice).",
+ "C12": dict(text="Symbolic model checking: every path of histories of InsertKey/UpsertKey/QueryKey/DeleteKey/SetKey over an alphabet of 2-3 keys (repeats forced) against a map model evaluated on committed state: every return value, every lookup (Row.Key and the value behind the key, symbolic), one live row per key, Count; several key operations per transaction, rollbacks, keyed rows in block 1 (block 0 full), histories that start from freed offsets still holding stale keys (four concrete pre-histories, symbolic choice), and re-keying from inside QueryKey and UpsertKey callbacks.",
              note="Bounds: T<=3|4 transactions, M<=2|3 ops per transaction, alphabet 2|3. Known findings partitioned off: KF-key-check-then-act (same absent key twice in one transaction), KF-rollback-insert. Racing upserts are only covered as far as the thread harness of C18 goes.",
              ref="DESIGN.md §4 C12"),
  "C15": dict(text="Symbolic model checking (sequential part): every path of histories of committed, rolled-back and read-only transactions over one and two blocks; after each transaction the commits that reached the logger (a user logger and commit.Channel) are exactly one per changed block, with non-zero, globally distinct, per-block increasing IDs.",
